@@ -7,11 +7,14 @@ from .. import cutfind
 from ..core import call_real
 
 ID = "C08"
-LEAN_MODULE = "CKT.Props.C08"
+LEAN_MODULE = "CKT.Props.C08Full"
 THEOREMS = ["CKT.C08." + t for t in [
     "desc_cost", "insertKey_sorted", "put1_spec", "put_spec", "lb_of_head", "lb_of_empty", "updMin_fields", "updUb_fields",
     "good_flag_of_popped", "loop_good", "pass_good", "flag_sound", "actCost_ge_one", "child_cost", "cut_mono", "firstMin_spec",
-    "passes_inv", "startSearch_good", "optimize_flag_sound"]]
+    "passes_inv", "startSearch_good", "optimize_flag_sound",
+    # second sentence of C08 (Props/C08Full): an unrestricted search always reports the minimum; flagged runs agree for every random stream
+    "phi_insertKey", "phi_put", "children_wt", "expand_good", "loop_complete", "pass_complete", "cut_ranked", "passes_complete",
+    "optimize_complete", "pass_ub", "passes_origin", "optimize_origin", "optimize_seed_independent", "unrestricted_seed_independent"]]
 RULE = ("as C07, with emphasis on search limits: gamma limits below, at and above the optimum, backjump limits 0..100 and none, several seeds "
         "per circuit; thorough: every circuit on 3 qubits with up to 3 cx gates x width 1..2 x every permitted-cut combination against the "
         "brute force over all 5^g plans; compared with the model: flag, overhead (exactly on integer-kappa circuits), cut circuit; distinct by payload")
